@@ -47,11 +47,11 @@ func leveldbFeature(repo, out string, replace map[string]string) {
 	}
 	s := string(b)
 	s = rewrite(f, s, "func (db *DB) Write(batch *Batch, wo *opt.WriteOptions) error {\n",
-		"func (db *DB) Write(batch *Batch, wo *opt.WriteOptions) error {\n\tverifNotify(db, \"batch\", batch, nil, nil)\n", 1)
+		"func (db *DB) Write(batch *Batch, wo *opt.WriteOptions) error {\n\tif err := verifNotify(db, \"batch\", batch, nil, nil); err != nil {\n\t\treturn err\n\t}\n", 1)
 	s = rewrite(f, s, "func (db *DB) Put(key, value []byte, wo *opt.WriteOptions) error {\n",
-		"func (db *DB) Put(key, value []byte, wo *opt.WriteOptions) error {\n\tverifNotify(db, \"put\", nil, key, value)\n", 1)
+		"func (db *DB) Put(key, value []byte, wo *opt.WriteOptions) error {\n\tif err := verifNotify(db, \"put\", nil, key, value); err != nil {\n\t\treturn err\n\t}\n", 1)
 	s = rewrite(f, s, "func (db *DB) Delete(key []byte, wo *opt.WriteOptions) error {\n",
-		"func (db *DB) Delete(key []byte, wo *opt.WriteOptions) error {\n\tverifNotify(db, \"delete\", nil, key, nil)\n", 1)
+		"func (db *DB) Delete(key []byte, wo *opt.WriteOptions) error {\n\tif err := verifNotify(db, \"delete\", nil, key, nil); err != nil {\n\t\treturn err\n\t}\n", 1)
 	// The hook lives in the replaced file and uses no new import: for module-cache packages the go
 	// command takes file lists and import sets from its module index, not from the overlay.
 	s += goleveldbHook
@@ -63,11 +63,13 @@ func leveldbFeature(repo, out string, replace map[string]string) {
 const goleveldbHook = `
 // VerifWriteHook is called before every Put / Delete / Write of every DB of the process
 // (verification overlay only).  path is always "" (kept for the harness's trace format).
-var VerifWriteHook func(path string, kind string, batch *Batch, key, value []byte)
+// A non-nil result makes the call return that error without writing (injected I/O error).
+var VerifWriteHook func(path string, kind string, batch *Batch, key, value []byte) error
 
-func verifNotify(db *DB, kind string, batch *Batch, key, value []byte) {
+func verifNotify(db *DB, kind string, batch *Batch, key, value []byte) error {
 	if h := VerifWriteHook; h != nil {
-		h("", kind, batch, key, value)
+		return h("", kind, batch, key, value)
 	}
+	return nil
 }
 `
